@@ -265,9 +265,6 @@ end Val
 
 /-! ## Numeric view, `==` -/
 
-/-- The real number a numeric value denotes, in quarter units (ints are exact). -/
-def floatKey (f : F) : Option (Int × Int) := f.key
-
 /-- Real and imaginary part of a value that takes part in numeric `==`. -/
 def Atom.num : Atom → Option (F × F)
   | .bool b => some (.fin (if b then 4 else 0), .fin 0)
